@@ -179,6 +179,15 @@ BASE_T = {
     "d/init.yaml": "l: [1]\ninclude: [.x]\nk: 3\n",
     "d/x.yaml": "m: 2\n{% if id == 's2' %}n: {p: 1}{% endif %}\n",
 }
+# a non-leaf file reached twice with a conflicting piece in between (top repetition and a diamond)
+BASE_R = {
+    "top.yaml": "'*': [a, m, a]\ns1: [y]\n",
+    "a.yaml": "u: 1\ninclude: [.x]\nw: 1\n",          # relative: x.yaml as a file, a/x.yaml after a swap to a/init.yaml
+    "m.yaml": "m: mid\nn: {p: mid}\n",
+    "y.yaml": "m: y\ninclude: [a]\n",
+    "x.yaml": "m: rootx\nn: {p: 1}\n",
+    "a/x.yaml": "m: subx\nn: {p: 2}\n",
+}
 EDITS = [
     ("edit", "a.yaml", "k: 4\n"),
     ("edit", "a.yaml", "m: 1\ninclude: [d.x]\nk: 1\n"),
@@ -217,7 +226,8 @@ class C12(Check):
                  "generated edit histories")
     rule = ("case = (base tree of 4 files with/without templates, history of edit/delete/create/swap file<->init/"
             "set-preceding/get ops, cache_size in {0,1,2,64}, engine on/off); exhaustive: every pair of mutations each "
-            "followed by gets for two systems; random histories up to 10 ops incl. random trees; the D13 witness; "
+            "followed by gets for two systems (three base trees: plain, templated, and one where a non-leaf file with a relative "
+            "include is reached twice with a conflicting piece in between and can be swapped to init.yaml); random histories up to 10 ops incl. random trees; the D13 witness; "
             "every returned tree is scribbled over by the caller; non-trivial = history with >= 2 gets and >= 1 mutation; "
             "distinct by full case")
     assumptions = [
@@ -247,11 +257,18 @@ class C12(Check):
                 for cs in (sizes if tier != "quick" else (rng.choice((0, 1)), rng.choice((2, 64)))):
                     ops = [("get", "s1"), ("get", "s2"), m1, ("get", "s1"), ("get", "s2"), m2, ("get", "s2"), ("get", "s1")]
                     yield {"base": b, "ops": ops, "cache_size": cs, "engine": engine, "ml": False, "ms": True, "allow_empty": False}
-        n = 250 if tier == "quick" else 4000
+        rpairs = list(itertools.product(EDITS, repeat=2))
+        swap = ("swap", "a")               # same content, other place: the relative include must be resolved anew
+        fixed = [(swap, m2) for m2 in EDITS[:3]] + [(m1, swap) for m1 in EDITS[:2]] + [(swap, swap)]
+        for m1, m2 in (fixed + rng.sample(rpairs, 10) if tier == "quick" else rpairs):
+            for cs in ((rng.choice((1, 2, 64)),) if tier == "quick" else (1, 64)):
+                ops = [("get", "s1"), ("get", "s2"), m1, ("get", "s1"), ("get", "s2"), m2, ("get", "s2"), ("get", "s1")]
+                yield {"base": BASE_R, "ops": ops, "cache_size": cs, "engine": False, "ml": False, "ms": True, "allow_empty": False}
+        n = 160 if tier == "quick" else 4000
         for _ in range(n):
             engine = rng.random() < 0.5
             if rng.random() < 0.5:
-                b = dict(BASE_T if engine else BASE)
+                b = dict(BASE_T if engine else (BASE if rng.random() < 0.6 else BASE_R))
                 pool = list(EDITS)
             else:
                 b = yamlfs.rand_tree(rng, engine, nfiles=rng.randrange(2, 6))
